@@ -35,7 +35,7 @@ type Step struct {
 	Name string `json:"name,omitempty"`
 }
 
-var editOps = []string{"addGlobal", "addFunc", "addBlock", "appendInst", "appendInst", "appendInst", "insertInst", "insertInst", "removeInst", "replaceTerm", "rename", "renameGlobal", "renameBlock", "addMetadata"}
+var editOps = []string{"addGlobal", "addFunc", "addBlock", "appendInst", "appendInst", "appendInst", "insertInst", "insertInst", "removeInst", "replaceTerm", "rename", "renameGlobal", "renameBlock", "addMetadata", "setAddrSpace"}
 var observeOps = []string{"obsString", "obsString", "obsWriteTo", "obsFunc", "obsBlock", "obsInst", "obsType", "obsIdent", "obsOperands", "obsSuccs"}
 
 // world is the state built by replaying a history.
@@ -105,7 +105,34 @@ func (w *world) operand(f *ir.Func, i int) value.Value {
 func (w *world) newInst(f *ir.Func, s Step) ir.Instruction {
 	x, y := w.operand(f, s.C), w.operand(f, s.D)
 	var in ir.Instruction
-	switch pick(9, s.B) {
+	allocas := func() []*ir.InstAlloca {
+		var out []*ir.InstAlloca
+		for _, b := range f.Blocks {
+			for _, i := range b.Insts {
+				if a, ok := i.(*ir.InstAlloca); ok && types.Equal(a.ElemType, types.I32) {
+					out = append(out, a)
+				}
+			}
+		}
+		return out
+	}
+	switch pick(11, s.B) {
+	case 9: // store to a stack slot (an operand whose printed type comes from the alloca's cached type)
+		if as := allocas(); len(as) > 0 {
+			a := as[pick(len(as), s.C)]
+			w.uses[a]++
+			in = ir.NewStore(x, a)
+		} else {
+			in = ir.NewOr(x, y)
+		}
+	case 10:
+		if as := allocas(); len(as) > 0 {
+			a := as[pick(len(as), s.D)]
+			w.uses[a]++
+			in = ir.NewLoad(types.I32, a)
+		} else {
+			in = ir.NewShl(x, y)
+		}
 	case 0:
 		in = ir.NewAdd(x, y)
 	case 1:
@@ -267,6 +294,21 @@ func (w *world) apply(s Step, observe bool) (printed string, isPrint bool) {
 				}
 				w.dropUses(in)
 				b.Insts = append(b.Insts[:pos], b.Insts[pos+1:]...)
+			}
+		}
+	case "setAddrSpace":
+		// the only way to put a stack slot into an address space through the API: assign the field after construction
+		if f := w.fn(s.A); f != nil {
+			var as []*ir.InstAlloca
+			for _, b := range f.Blocks {
+				for _, i := range b.Insts {
+					if a, ok := i.(*ir.InstAlloca); ok {
+						as = append(as, a)
+					}
+				}
+			}
+			if len(as) > 0 {
+				as[pick(len(as), s.B)].AddrSpace = types.AddrSpace(1 + s.C%4)
 			}
 		}
 	case "replaceTerm":
